@@ -1370,7 +1370,11 @@ static int cfg_parse_internal(cfg_t *cfg, int level, int force_state, cfg_opt_t 
 				goto error;
 			}
 
-			opt = cfg_getopt(cfg, cfg_yylval);
+			if (is_set(CFGF_KEYSTRVAL, cfg->flags))
+				/* free-form section, an unknown key is not an error */
+				opt = cfg_getopt_leaf(cfg, cfg_yylval);
+			else
+				opt = cfg_getopt(cfg, cfg_yylval);
 			if (!opt) {
 				if (is_set(CFGF_IGNORE_UNKNOWN, cfg->flags)) {
 					state = 10;
@@ -1387,6 +1391,8 @@ static int cfg_parse_internal(cfg_t *cfg, int level, int force_state, cfg_opt_t 
 					break;
 				}
 
+				if (!cfg_yylval[0]) /* cfg_getopt() is silent about an empty name */
+					cfg_error(cfg, _("no such option '%s'"), cfg_yylval);
 				goto error;
 			}
 
